@@ -184,3 +184,22 @@ func Caller(s string) string {
 	}
 	return Camelize(s[1:], false)
 }
+
+func QuoteLoop(s string) string {
+	var sb strings.Builder
+	sb.WriteByte('\'')
+	for i := 0; i < len(s); i++ {
+		if s[i] == '\'' {
+			sb.WriteString(`'"'"'`)
+		} else {
+			sb.WriteByte(s[i])
+		}
+	}
+	sb.WriteByte('\'')
+	if sb.Len() > 6 {
+		sb.Write([]byte("!"))
+	}
+	return sb.String()
+}
+
+func PathJoin(a string, b string) string { return path.Join(a, b) + "|" + path.Join("/", b) }
